@@ -1,6 +1,7 @@
 pub mod alloc_count;
 pub mod alphabet;
 pub mod curves;
+pub mod devspace;
 pub mod evidence;
 pub mod program;
 pub mod proofparts;
